@@ -172,8 +172,24 @@ impl Deserializable for Context {
         // read options
         let options = ProofOptions::read_from(source)?;
 
+        // make sure the domain sizes implied by the trace info and the options are within the
+        // limits enforced by the constructor
+        let lde_domain_size = trace_info.length().checked_mul(options.blowup_factor());
+        if !matches!(lde_domain_size, Some(size) if size <= u32::MAX as usize) {
+            return Err(DeserializationError::InvalidValue(
+                "LDE domain size is too big".to_string(),
+            ));
+        }
+
         // read total number of constraints
         let num_constraints = source.read_usize()?;
+        if num_constraints == 0 || num_constraints > u32::MAX as usize {
+            return Err(DeserializationError::InvalidValue(format!(
+                "number of constraints must be between 1 and {}, but was {}",
+                u32::MAX,
+                num_constraints
+            )));
+        }
 
         Ok(Context {
             trace_info,
